@@ -487,3 +487,64 @@ func (c *Ctx) ruleFinaliseSetID() {
 		c.unresolved("writes in SetFinalisedHash")
 	}
 }
+
+// R-FRESHDECODE (C11, C12, C14): what a decode leaves in its destination does not depend on what was there before.
+func (c *Ctx) ruleFreshDecode() {
+	dir := "pkg/scale"
+	c.doc("R-FRESHDECODE", dir+": decodePointer's `None` case stores a value into the destination (the nil pointer) instead of leaving it alone, and decodeMap installs a map made in the call on every path (not only when the destination was nil): a reused destination must not keep Some(old) for an encoded None, nor merge old map entries")
+	if f := c.fn(dir, "(*decodeState).decodePointer"); f == nil {
+		c.unresolved("(*decodeState).decodePointer")
+	} else {
+		dst := ssa.Value(f.Params[1])
+		// the option byte: result of ReadByte; the None edge: byte == 0
+		okNone := false
+		found := false
+		for _, b := range f.Blocks {
+			isNone := guardedBy(b, func(cond ssa.Value, truth bool) bool {
+				bo, ok := cond.(*ssa.BinOp)
+				if !ok || bo.Op != token.EQL || !truth {
+					return false
+				}
+				k, isC := constInt(bo.Y)
+				return isC && k == 0
+			})
+			if !isNone {
+				continue
+			}
+			found = true
+			for _, in := range b.Instrs {
+				if call, ok := in.(*ssa.Call); ok && calleeName(&call.Call) == "(reflect.Value).Set" && len(call.Call.Args) > 0 && call.Call.Args[0] == dst {
+					okNone = true
+				}
+			}
+		}
+		c.ob("R-FRESHDECODE", "decodePointer:none-resets-destination", f.Pos(), found && okNone, "the None (0x00) case leaves the destination pointer as it was")
+	}
+	if f := c.fn(dir, "(*decodeState).decodeMap"); f == nil {
+		c.unresolved("(*decodeState).decodeMap")
+	} else {
+		dst := ssa.Value(f.Params[1])
+		var set *ssa.Call
+		eachInstr(f, func(_ *ssa.BasicBlock, _ int, in ssa.Instruction) {
+			call, ok := in.(*ssa.Call)
+			if !ok || calleeName(&call.Call) != "(reflect.Value).Set" || call.Call.Args[0] != dst {
+				return
+			}
+			if mk, ok := call.Call.Args[1].(*ssa.Call); ok && strings.HasPrefix(calleeName(&mk.Call), "reflect.MakeMap") {
+				set = call
+			}
+		})
+		ok := set != nil
+		if ok {
+			// unconditional with respect to the destination: every element store is dominated by it, and it is not
+			// guarded by a test of the destination
+			if guardedBy(set.Block(), func(cond ssa.Value, truth bool) bool {
+				call, isCall := cond.(*ssa.Call)
+				return isCall && strings.HasPrefix(calleeName(&call.Call), "(reflect.Value).Is") && call.Call.Args[0] == dst
+			}) {
+				ok = false
+			}
+		}
+		c.ob("R-FRESHDECODE", "decodeMap:fresh-map", f.Pos(), ok, "the destination map is replaced by a fresh one only when it was nil: entries of a reused destination survive the decode")
+	}
+}
